@@ -56,7 +56,7 @@ def _concrete(replay, model):
         sx.CUR = cur
 
 
-def prove(S, name, A, B=None, timeout=30, tol=None, replay=None, signature=None, extra=(), detail=None, twin=True):
+def prove(S, name, A, B=None, timeout=30, tol=None, replay=None, signature=None, extra=(), detail=None, twin=True, over=None):
     """Returns one obligation record.  replay(model)->(bool reproduces, payload) is run on `sat`."""
     t0 = time.time()
     try:
@@ -64,6 +64,20 @@ def prove(S, name, A, B=None, timeout=30, tol=None, replay=None, signature=None,
     except sx.Unsupported as e:
         return {"name": name, "status": UNSUPPORTED, "detail": str(e)}
     syms = symbols_of(S, polys)
+    if not syms:
+        # the two sides cancel syntactically: the obligation still ranges over the symbols that occur on either side
+        try:
+            both = sx._collect_polys(S, A) + (sx._collect_polys(S, B) if B is not None else [])
+            syms = symbols_of(S, both)
+        except Exception:  # noqa: BLE001
+            syms = []
+    if not syms and over:
+        # `over`: polynomials (or SymC terms) the obligation was DERIVED from, when the polynomial arithmetic already reduced the obligation
+        # itself to zero (its normal form decides the identity): the claim still ranges over their symbols
+        try:
+            syms = symbols_of(S, [x.p if isinstance(x, sx.SymC) else x for x in over if isinstance(x, (sx.SymC, dict))])
+        except Exception:  # noqa: BLE001
+            syms = []
     r = sx.prove_zero(S, polys, extra=extra, timeout_s=timeout, tol=tol)
     rec = {"name": name, "symbols": syms, "solver": f"z3:{r.status}" + (f" ({r.note.strip()})" if r.note.strip() else ""),
            "solver_s": round(r.time_s, 4), "time_s": round(time.time() - t0, 4), "queries": 1,
